@@ -22,6 +22,19 @@ attribute [local simp] Lit.nodeIn Lit.updateNode Lit.nodeAt Lit.storeNode Lit.no
   Gen.bufVersionQuery Gen.bufPresentationRequest Gen.bufReboot Gen.bufReqReply Gen.bufIdResponse Gen.bufConfig
   Gen.bufTime Gen.bufDiscover Gen.bufFlush
 
+/-- `x = await f(...); return x` is `return await f(...)`. -/
+theorem bind_pure (x : M α) : (bind x fun a => pure a) = x := by
+  funext w
+  simp only [M.bind, M.pure]
+  cases h : x w with
+  | mk r w' => cases r <;> rfl
+
+/-- The `except` tuples of the handlers, as the generated tables hold them, written out: the translated bodies carry the
+same tuples as literals (both are read from the same clause, so they agree in whatever order the classes are written). -/
+local macro "clause_lit" "at" h:ident : tactic =>
+  `(tactic| simp only [clause, Gen.excBattery, Gen.excVersion, Gen.excHeartbeat20, Gen.excHeartbeat22,
+      List.getD_cons_zero] at $h:ident)
+
 /-! ### `model/node.py` -/
 
 theorem add_child_eq (c t : Int) (d : Str) (n : Node) :
@@ -68,29 +81,59 @@ attribute [local simp] gwSend'_eq
 
 /-! ### the sleep buffer: release loop and the outgoing handlers -/
 
-theorem forEach_flushList (l : List (Key × Msg)) :
-    (Lit.forEach l fun kb =>
-      seq (gwSend kb.2 false)
-        (bind (Lit.sbufHolds kb.1 kb.2) fun c => if c then Lit.sbufPop kb.1 else pure ())) = flushList l := by
+/-- One iteration of the release loop, as the model has it: write the held command, then drop the entry if it is
+still the one that was written. -/
+def flushStep (kb : Key × Msg) : M Unit :=
+  seq (gwSend kb.2 Gen.bufFlush)
+    (modifySt fun s => if s.sbuf.get? kb.1 = some kb.2 then { s with sbuf := s.sbuf.erase kb.1 } else s)
+
+theorem forEach_flushStep (l : List (Key × Msg)) : Lit.forEach l flushStep = flushList l := by
   induction l with
   | nil => rfl
   | cons x xs ih =>
     obtain ⟨k, bm⟩ := x
-    simp only [Lit.forEach, flushList, ih]
+    simp only [Lit.forEach, flushList, ih, flushStep]
     funext w
-    simp only [M.seq, M.bind, Gen.bufFlush]
-    obtain ⟨r, w'⟩ := gwSend bm false w
+    simp only [M.seq, M.bind]
+    obtain ⟨r, w'⟩ := gwSend bm Gen.bufFlush w
+    cases r <;> rfl
+
+/-- `_handle_sleep_buffer` in whatever spelling: a snapshot of the entries selected by `P`, a loop over it with body `B`,
+the message returned.  It is the model's `flush` as soon as `P` selects the woken node's entries and one iteration is
+`flushStep` (both shown pointwise below, so the operands of the comparison, the polarity of the test and `continue`
+versus a nested `if` do not matter). -/
+theorem flush_of (m : Msg) (P : Key × Msg → Bool) (B : Key × Msg → M Unit)
+    (hP : ∀ kb, P kb = (kb.2.node == m.node)) (hB : ∀ kb, B kb = flushStep kb) :
+    (bind (Lit.sbufSnapshot P) fun l => seq (Lit.forEach l B) (pure m)) = flush m := by
+  have hP' : P = fun e => e.2.node == m.node := funext hP
+  have hB' : B = flushStep := funext hB
+  subst hP' hB'
+  funext w
+  simp only [flush, Lit.sbufSnapshot, forEach_flushStep]
+  simp
+
+theorem sleepBuffer20_eq : GenBodies.sleepBuffer20 = flush := by
+  funext m
+  unfold GenBodies.sleepBuffer20
+  refine flush_of m _ _ ?_ ?_
+  · intro kb
+    first
+      | rfl
+      | exact BEq.comm
+      | (by_cases h : m.node = kb.2.node
+         · simp [h]
+         · have h' : ¬ kb.2.node = m.node := fun e => h e.symm
+           simp [h, h'])
+  · intro kb
+    funext w
+    simp only [flushStep, M.seq, M.bind, gwSend'_eq, Gen.bufFlush]
+    obtain ⟨r, w'⟩ := gwSend kb.2 false w
     cases r with
     | error e => rfl
     | ok u =>
-      by_cases h : w'.st.sbuf.get? k = some bm
+      by_cases h : w'.st.sbuf.get? kb.1 = some kb.2
       · simp [h]
       · simp [h]
-
-theorem sleepBuffer20_eq : GenBodies.sleepBuffer20 = flush := by
-  funext m w
-  simp only [GenBodies.sleepBuffer20, flush, Lit.sbufSnapshot, gwSend'_eq, forEach_flushList]
-  simp
 
 attribute [local simp] sleepBuffer20_eq
 
@@ -142,54 +185,49 @@ theorem iTime14_eq (env : Env) : GenBodies.iTime14 env = hTime env := by
 
 theorem iBatteryLevel14_eq : GenBodies.iBatteryLevel14 = hBattery := by
   funext m w
-  have hcl : clause Gen.excBattery 0 = [.ValueError, .OverflowError] := rfl
   cases h : w.st.nodes.get? m.node with
   | none => simp [GenBodies.iBatteryLevel14, hBattery, h]
   | some node =>
     cases hp : pyRoundFloat m.payload with
     | error c =>
-      cases hc : pyCaught c [.ValueError, .OverflowError] <;>
-        simp [GenBodies.iBatteryLevel14, hBattery, h, hp, hcl, convertExn, hc]
+      -- the classes of the `except` tuple in whatever order they are written
+      cases hc : pyCaught c (clause Gen.excBattery 0) <;> clause_lit at hc <;>
+        simp [GenBodies.iBatteryLevel14, hBattery, h, hp, clause, Gen.excBattery, convertExn, hc]
     | ok level =>
-      by_cases hr : Gen.minBattery ≤ level ∧ level ≤ Gen.maxBattery
-      · -- the range test may be spelled `not lo <= x <= hi` or `x < lo or x > hi`: give simp every polarity
-        have h1 : (0 : Int) ≤ level := hr.1
-        have h2 : level ≤ (100 : Int) := hr.2
-        have n1 : ¬ level < (0 : Int) := by omega
-        have n2 : ¬ (100 : Int) < level := by omega
-        have n3 : ¬ level > (100 : Int) := by omega
-        have n4 : ¬ (0 : Int) > level := by omega
-        simp [GenBodies.iBatteryLevel14, hBattery, h, hp, convertExn, hr, h1, h2, n1, n2, n3, n4]
-      · have h3 : ¬ ((0 : Int) ≤ level ∧ level ≤ (100 : Int)) := hr
-        have h4 : level < 0 ∨ 100 < level := by omega
-        have h5 : level < 0 ∨ level > 100 := by omega
-        have h6 : ¬ (0 : Int) ≤ level ∨ ¬ level ≤ (100 : Int) := by omega
-        simp [GenBodies.iBatteryLevel14, hBattery, h, hp, convertExn, hr, h4, h5]
-        all_goals first | done | (intros; omega) | (simp_all; done)
+      -- the range test may be spelled `not lo <= x <= hi`, `x < lo or x > hi`, `lo <= x and x <= hi` with the branches
+      -- exchanged, …: split on the two atomic comparisons and give simp each of them in both spellings
+      rcases (by omega : ((0 : Int) ≤ level ∧ ¬ level < (0 : Int)) ∨ (¬ (0 : Int) ≤ level ∧ level < (0 : Int)))
+        with ⟨a1, a2⟩ | ⟨a1, a2⟩ <;>
+      rcases (by omega : (level ≤ (100 : Int) ∧ ¬ (100 : Int) < level) ∨ (¬ level ≤ (100 : Int) ∧ (100 : Int) < level))
+        with ⟨b1, b2⟩ | ⟨b1, b2⟩ <;>
+      simp [GenBodies.iBatteryLevel14, hBattery, h, hp, convertExn, Gen.minBattery, Gen.maxBattery, a1, a2, b1, b2]
 
 theorem iHeartbeatResponse22_eq : GenBodies.iHeartbeatResponse22 = hHeartbeat22 := by
   funext m w
-  have hcl : clause Gen.excHeartbeat22 0 = [.ValueError] := rfl
-  have hv : pyCaught .ValueError [.ValueError] = true := by decide
+  have hv : pyCaught .ValueError (clause Gen.excHeartbeat22 0) = true := by decide
+  clause_lit at hv
+  simp only [GenBodies.iHeartbeatResponse22, bind_pure]
   cases h : w.st.nodes.get? m.node with
-  | none => simp [GenBodies.iHeartbeatResponse22, hHeartbeat22, h]
+  | none => simp [hHeartbeat22, h]
   | some node =>
     cases hp : pyInt? m.payload <;>
-      simp [GenBodies.iHeartbeatResponse22, hHeartbeat22, heartbeatValue, h, hp, hcl, hv, convertExn]
+      simp [hHeartbeat22, heartbeatValue, h, hp, clause, Gen.excHeartbeat22, hv, convertExn]
 
 theorem iHeartbeatResponse20_eq : GenBodies.iHeartbeatResponse20 = hHeartbeat20 := by
   funext m w
-  have hcl : clause Gen.excHeartbeat20 0 = [.ValueError] := rfl
-  have hv : pyCaught .ValueError [.ValueError] = true := by decide
+  have hv : pyCaught .ValueError (clause Gen.excHeartbeat20 0) = true := by decide
+  clause_lit at hv
+  simp only [GenBodies.iHeartbeatResponse20, bind_pure]
   cases h : w.st.nodes.get? m.node with
-  | none => simp [GenBodies.iHeartbeatResponse20, hHeartbeat20, h]
+  | none => simp [hHeartbeat20, h]
   | some node =>
     cases hp : pyInt? m.payload <;>
-      simp [GenBodies.iHeartbeatResponse20, hHeartbeat20, heartbeatValue, h, hp, hcl, hv, convertExn]
+      simp [hHeartbeat20, heartbeatValue, h, hp, clause, Gen.excHeartbeat20, hv, convertExn]
 
 theorem iPreSleepNotification22_eq : GenBodies.iPreSleepNotification22 = hPreSleep22 := by
   funext m w
-  cases h : w.st.nodes.get? m.node <;> simp [GenBodies.iPreSleepNotification22, hPreSleep22, h]
+  simp only [GenBodies.iPreSleepNotification22, bind_pure]
+  cases h : w.st.nodes.get? m.node <;> simp [hPreSleep22, h]
 
 theorem defaultVersion_chars : Gen.defaultVersionStr.toList = [Char.ofNat 49, Char.ofNat 46, Char.ofNat 52] := by decide
 
@@ -213,54 +251,62 @@ theorem setProtocolVersion_eq (value : Str) :
 
 theorem iVersion14_eq : GenBodies.iVersion14 = hVersion := by
   funext m w
-  have hcl : clause Gen.excVersion 0 = [.AwesomeVersionException, .ValueError, .IndexError] := rfl
   cases h : getProtocolE m.payload with
-  | ok v => simp [GenBodies.iVersion14, hVersion, setProtocolVersion_eq, Lit.catchTo, M.tryCatch, convertExn, hcl, h]
+  | ok v =>
+    simp [GenBodies.iVersion14, hVersion, setProtocolVersion_eq, Lit.catchTo, M.tryCatch, convertExn, clause, Gen.excVersion, h]
   | error c =>
-    cases hc : pyCaught c [.AwesomeVersionException, .ValueError, .IndexError] <;>
-      simp [GenBodies.iVersion14, hVersion, setProtocolVersion_eq, Lit.catchTo, M.tryCatch, convertExn, hcl, h, hc]
+    -- the classes of the `except` tuple in whatever order they are written
+    cases hc : pyCaught c (clause Gen.excVersion 0) <;> clause_lit at hc <;>
+      simp [GenBodies.iVersion14, hVersion, setProtocolVersion_eq, Lit.catchTo, M.tryCatch, convertExn, clause, Gen.excVersion, h, hc]
 
 /-! ### the two decorators -/
 
-theorem wants_eq (m : Msg) :
-    ((m.cmd != (3 : Int)) || !([(9 : Int), (14 : Int)].contains m.type)) = wantsVersionQuery m := by
-  simp only [wantsVersionQuery, List.contains_cons, List.contains_nil, Bool.or_false, Bool.not_or]
-  rfl
-
+/-- What the `finally` clause of `handle_missing_protocol_version` does for the message `x` it looks at, however its
+condition is spelled (one conjunction, nested `if`s, De Morgan's form, the type tuple in any order): decided by cases on
+the stored version and on the three atomic comparisons. -/
 theorem wrapMissingPV_eq : GenBodies.wrapMissingPV = wrapMissingPV := by
   funext inner m
   unfold GenBodies.wrapMissingPV wrapMissingPV
   congr 1
   funext r w'
-  simp only [wants_eq]
-  simp [versionQuery]
-  rfl
+  cases r <;> simp only []
+  all_goals
+    rename_i x
+    first
+    | (cases hp : w'.st.pv <;> by_cases h1 : x.cmd = 3 <;> by_cases h2 : x.type = 9 <;> by_cases h3 : x.type = 14 <;>
+        simp [wantsVersionQuery, versionQuery, hp, h1, h2, h3] <;> rfl)
+    | (cases hp : w'.st.pv <;> by_cases h1 : m.cmd = 3 <;> by_cases h2 : m.type = 9 <;> by_cases h3 : m.type = 14 <;>
+        simp [wantsVersionQuery, versionQuery, hp, h1, h2, h3] <;> rfl)
 
-theorem libCaught_eq (e : Exn) : Lit.libCaught e ["MissingNodeError", "MissingChildError"] = missingCaught e := by
-  have h : Gen.excMissingNC = ["MissingNodeError", "MissingChildError"] := rfl
-  cases e with
-  | foreign c => rfl
-  | lib l => cases l <;> simp [Lit.libCaught, missingCaught, h]
-
+/-- The `except` tuple of `handle_missing_node_child` as the translator read it is the generated table (in whatever
+order the classes are written): both sides are evaluated per exception. -/
 theorem wrapMissingNC_eq : GenBodies.wrapMissingNC = wrapMissingNC := by
   funext inner m
   unfold GenBodies.wrapMissingNC wrapMissingNC
   congr 1
   funext e
-  simp only [libCaught_eq]
-  cases hc : missingCaught e with
-  | false => simp
-  | true =>
-    simp only [if_true, Option.some.injEq]
-    funext w
-    cases hi : w.st.ibuf.get? (m.node, 255, 19) <;>
-      simp [presentationRequest, Msg.key, hi]
-    -- what remains (if anything, depending on how the branch is spelled) is a case split on the request's write
-    all_goals first
-      | done
-      | (generalize gwSend _ false w = r
-         obtain ⟨r, w'⟩ := r
-         cases r <;> rfl)
+  have hcaught : ∀ (A B : M Msg), A = B →
+      ∀ l : List String, l.contains "MissingNodeError" = Gen.excMissingNC.contains "MissingNodeError" →
+        l.contains "MissingChildError" = Gen.excMissingNC.contains "MissingChildError" →
+        l.contains "InvalidMessageError" = false → l.contains "TooManyNodesError" = false →
+        l.contains "UnsupportedMessageError" = false → l.contains "TransportFailedError" = false →
+        (if Lit.libCaught e l then some A else none) = (if missingCaught e then some B else none) := by
+    intro A B hAB l h1 h2 h3 h4 h5 h6
+    subst hAB
+    cases e with
+    | foreign c => rfl
+    | lib l' =>
+      cases l' <;> simp only [Lit.libCaught, missingCaught, h1, h2, h3, h4, h5, h6, Bool.false_eq_true, if_false] <;> rfl
+  apply hcaught _ _ _ _ (by decide) (by decide) (by decide) (by decide) (by decide) (by decide)
+  funext w
+  cases hi : w.st.ibuf.get? (m.node, 255, 19) <;>
+    simp [presentationRequest, Msg.key, hi]
+  -- what remains (if anything, depending on how the branch is spelled) is a case split on the request's write
+  all_goals first
+    | done
+    | (generalize gwSend _ false w = r
+       obtain ⟨r, w'⟩ := r
+       cases r <;> rfl)
 
 theorem presentation20_eq : GenBodies.presentation20 = prePresentation20 := by
   funext m w
@@ -300,12 +346,6 @@ attribute [local simp] runTypedGen_eq
 
 /-! ### command-level bodies -/
 
-theorem bind_pure (x : M α) : (bind x fun a => pure a) = x := by
-  funext w
-  simp only [M.bind, M.pure]
-  cases h : x w with
-  | mk r w' => cases r <;> rfl
-
 theorem presentation14_eq (env : Env) (v : Ver) : GenBodies.presentation14 env v = hPresentation env v := by
   funext m w
   by_cases hc : m.child = 255
@@ -324,17 +364,19 @@ protocol, hence the hypothesis. -/
 theorem internal14_eq (env : Env) (v : Ver) (m : Msg) (w : W) (hv : w.st.proto = v) :
     GenBodies.internal14 env v m w = hInternal env v m w := by
   have hc : pyCaught .ValueError [.ValueError] = true := by decide
+  simp only [GenBodies.internal14, bind_pure]
   cases h : (Gen.internalTypes v).lookup m.type <;>
-    simp [GenBodies.internal14, hInternal, Lit.catchTo, Lit.enumMember, M.tryCatch, hv, h, hc]
+    simp [hInternal, Lit.catchTo, Lit.enumMember, M.tryCatch, hv, h, hc]
 
 theorem stream14_eq (env : Env) (v : Ver) (m : Msg) (w : W) (hv : w.st.proto = v) :
     GenBodies.stream14 env v m w = hStream env v m w := by
   have hc : pyCaught .ValueError [.ValueError] = true := by decide
+  simp only [GenBodies.stream14, bind_pure]
   cases hn : w.st.nodes.get? m.node with
-  | none => simp [GenBodies.stream14, hStream, hn]
+  | none => simp [hStream, hn]
   | some node =>
     cases h : (Gen.streamTypes v).lookup m.type <;>
-      simp [GenBodies.stream14, hStream, Lit.catchTo, Lit.enumMember, M.tryCatch, hv, h, hc, hn]
+      simp [hStream, Lit.catchTo, Lit.enumMember, M.tryCatch, hv, h, hc, hn]
 
 theorem baseGen_eq (env : Env) (v : Ver) (b : Body) (m : Msg) (w : W) (hv : w.st.proto = v) :
     GenBodies.baseGen env v b m w = runBase env v b m w := by
